@@ -31,8 +31,11 @@ func (s *c04m) promote() {
 
 func (s *c04m) prefix() {
 	x, y := s.keys[0], s.keys[1]
-	switch vChoose("layout", 6) {
+	switch vChoose("layout", 7) {
 	case 0:
+	case 6: // x promoted by a miss (missLocked)
+		s.store(x, vInt("pv"))
+		s.m.Load(x)
 	case 1: // x only in the dirty map
 		s.store(x, vInt("pv"))
 	case 2: // x promoted to the read map
